@@ -80,6 +80,11 @@ def gen_program(r):
             params.append("%s = %s" % (m.default[0], TYPE_OF[m.default[1]]))
         if m.kw:
             params.append("%s:%s" % (m.kw[0], "" if m.kw[1] else " " + TYPE_OF[m.kw[2]]))
+        if r.random() < 0.3:                 # a call site written before the definition
+            place[0] = "early"
+            lines.append("dbtp " + call_text(m))
+            place[0] = "top"
+            probes.append((len(lines), "call_before_def", m, None))
         lines.append("def %s(%s)" % (m.name, ", ".join(params)))
         for p in m.pos + ([m.default[0]] if m.default else []) + ([m.kw[0]] if m.kw else []):
             lines.append("  dbtp %s" % p)
